@@ -82,7 +82,7 @@ fn check(cfg: &Parser, input: &[u8]) -> bool {
 //@harness c17_offset_parse_upto_20
 //@target fmt::offset::Parser::{parse,parse_numeric,parse_sign,parse_hours,parse_minutes,parse_seconds,parse_separator}, fmt::util::parse_temporal_fraction, fmt::offset::{ParsedOffset,Numeric}::to_offset (src/fmt/offset.rs)
 //@prop C17 C09
-//@tier quick
+//@tier thorough
 //@timeout 1500
 //@bounded every byte string of 0..=20 bytes (the longest offset, "+HH:MM:SS.fffffffff", has 19 bytes; the 20th is lookahead), every parser configuration (zulu, subminute, subsecond)
 //@doc parse returns Ok or Err without panicking; Ok => the sign/hours/minutes/seconds/fraction fields are exactly the ones the text spells (basic "+HHMMSS" and extended "+HH:MM:SS" forms, "." or "," fraction of up to 9 digits), hours <= 25, minutes <= 59, seconds <= 59, the unread rest starts right after the last accepted byte; to_offset() on the result is Ok(sign * (h*3600 + m*60 + s, rounded up by one second when the first fractional digit is >= 5)) and that is inside -93599..=93599, or Err exactly when rounding reaches 26:00:00; "Z"/"z" is UTC when enabled
@@ -100,7 +100,7 @@ fn c17_offset_parse_upto_20() {
 //@harness c09_offset_parse_printed_shape
 //@target fmt::offset::Parser::parse on the texts the printers emit: "+HH:MM" and "+HH:MM:SS" (src/fmt/offset.rs)
 //@prop C09 C17
-//@tier quick
+//@tier thorough
 //@timeout 900
 //@doc for every offset -93599..=93599 written as sign, two-digit hours, ":", two-digit minutes and (optionally) ":", two-digit seconds, followed by nothing or by a byte that cannot continue an offset ('[', ' ', NUL): the default parser accepts it, consumes exactly the offset and to_offset() is exactly that offset (the sign of "-00:00" is kept in the parsed sign field)
 #[kani::proof]
